@@ -11,6 +11,7 @@ import Peppi.Lemmas.Unified2
 import Peppi.Prog
 import Peppi.ReadProg
 import Peppi.ReadStream
+import Peppi.PeppiJson
 set_option linter.unusedVariables false
 namespace Peppi.Props.C11
 
@@ -91,5 +92,9 @@ theorem readSlpS_frag (T : TextOracle) (opts : Opts) (s : Stream) :
     (∀ e, readSlp T opts s.flatten = .err e → ∃ e', readSlpS T opts s = .err e') ∧
     (∀ p, readSlp T opts s.flatten = .panic p → readSlpS T opts s = .panic p) :=
   _root_.Peppi.readSlpS_frag T opts s
+
+/- from `Peppi.PeppiJson` -/
+theorem decPeppiJ_enc (h : Option String) (q : Option Bool) : decPeppiJ (encPeppiJ h q) = .ok ⟨true, h, q⟩ :=
+  _root_.Peppi.decPeppiJ_enc h q
 
 end Peppi.Props.C11
